@@ -421,3 +421,39 @@ def c03_nopanic(ctx, rep, rule):
     n = report_sites(ctx, rep, rule, scope)
     if n < 30:
         rep.violation(rule, "floor", "only %d obligations on the send path, floor is 30" % n)
+
+
+def oid_store(ctx, rep, rule):
+    """OidStorage::store replaces the remembered OID (contract len(self) == len(oid) on every exit): the follow-up request
+    of a walk and the ordering guard use exactly the last accepted OID."""
+    path = "<std::vec::Vec<u8> as ber::objectid::OidStorage>::store"
+    if ctx.facts.body(path) is None:
+        rep.missing(rule, "OidStorage::store for Vec<u8>")
+        return
+    n = report_sites(ctx, rep, rule, {path})
+    if n == 0:
+        rep.missing(rule, "OidStorage::store: contract obligation")
+
+
+def des_padding(ctx, rep, rule):
+    """DES-CBC padding: the length handed to the cipher covers the scoped PDU and exceeds it by at most 7 octets (probe in the
+    num engine on DesKey::encrypt, trace-partitioned: decided on every arm that computes the padded length)."""
+    path = "<privacy::des::DesKey as privacy::SnmpPriv>::encrypt"
+    body = ctx.facts.body(path)
+    if body is None:
+        rep.missing(rule, "DesKey::encrypt")
+        return
+    res = numrun.run(ctx)
+    n = 0
+    for p, o in res.obligations({path}):
+        if o["kind"] != "probe":
+            continue
+        n += 1
+        if o["key"].endswith("values-tracked"):
+            rep.inconclusive(rule, "DesKey::encrypt|probe", "padded length not tracked through this shape of the code", body.loc(o["line"]))
+            continue
+        rep.check(rule, "DesKey::encrypt|%s" % o["key"], o["ok"], "holds on every path to the cipher",
+                  "the padded length handed to DES-CBC is not within [len, len + 7] of the scoped PDU (%s): %s" % (o["key"].split("|")[-1], o["detail"]),
+                  body.loc(o["line"]), obligation=True)
+    if n == 0:
+        rep.inconclusive(rule, "DesKey::encrypt|probe", "no encrypt_padded_mut call found: padding not decided", body.loc())
